@@ -161,7 +161,7 @@ func checkConservation(s *gen.Stream, f []byte, add func(clause, known, msg stri
 		for i := d.FirstLine; i <= d.LastLine; i++ {
 			plain[i] = true
 		}
-		if t := d.LastLine + 1; !d.Race && t < n && s.Lines[t].Blank && s.Lines[t].Class == gen.Junk {
+		if t := d.LastLine + 1; (!d.Race || d.NoFooter) && t < n && s.Lines[t].Blank && s.Lines[t].Class == gen.Junk {
 			plain[t] = true
 		}
 	}
